@@ -946,18 +946,18 @@ def _contexts_active_by_referents(frame: types.FrameType, origin: Any) -> List[C
         root = origin
 
     for referent in gc.get_referents(root):
-        if isinstance(referent, types.MethodType) and referent.__func__.__name__ in (
-            "__exit__",
-            "__aexit__",
-        ):
-            # 'with' and 'async with' statements push a reference to the
-            # __exit__ or __aexit__ method that they'll call when exiting.
-            ret.append(
-                Context(
-                    is_async="a" in referent.__func__.__name__,
-                    obj=referent.__self__,
-                )
-            )
+        # 'with' and 'async with' statements push a reference to the
+        # __exit__ or __aexit__ method that they'll call when exiting.
+        # For a context manager implemented in C (a lock, an open file),
+        # that's a builtin method rather than a Python-level bound method.
+        if isinstance(referent, types.MethodType):
+            name = referent.__func__.__name__
+        elif isinstance(referent, types.BuiltinMethodType):
+            name = referent.__name__
+        else:
+            continue
+        if name in ("__exit__", "__aexit__"):
+            ret.append(Context(is_async="a" in name, obj=referent.__self__))
     exiting = currently_exiting_context(frame)
     if exiting is not None:
         ret.append(Context(obj=None, is_async=exiting.is_async, is_exiting=True))
